@@ -262,6 +262,10 @@ class RefDC:
                 # msKds-SecretAgreementParam (two encodings of one group; the key blob's width sizes the shared secret)
                 _kl, p_, g_, y_ = gkdi.unpack_dh_key(pub)
                 pub = gkdi.pack_dh_key(int(self.byz["dh_pub_key_length"]), p_, g_, y_)
+            if rk.secret_alg != "DH" and self.byz.get("ecdh_pub_pad"):
+                # the same point in a key blob whose coordinates are padded wider than the curve needs (fixed-width fields, leading zeros)
+                c_, kl_, x_, y_ = gkdi.unpack_ecdh_key(pub)
+                pub = gkdi.pack_ecdh_key(c_, x_, y_, kl_ + int(self.byz["ecdh_pub_pad"]))
             env = dict(base, flags=3, l1_key=b"", l2_key=pub)
         else:
             entry["denied"] = "access"
